@@ -85,7 +85,7 @@ var revVariants = []revVariant{
 }
 
 // buildForeign writes a small encrypted file without go-pdf.
-func buildForeign(v revVariant, user, owner string, P uint32, rnd *rand.Rand) (file []byte, strPlain obj.Str, body []byte, strRef, stmRef obj.Ref, err error) {
+func buildForeign(v revVariant, user, owner string, P uint32, rnd *rand.Rand, at obj.Ref) (file []byte, strPlain obj.Str, body []byte, strRef, stmRef obj.Ref, err error) {
 	p := v.p
 	p.User, p.Owner, p.P, p.Rand = user, owner, P, rnd
 	p.ID0 = make([]byte, 16)
@@ -99,6 +99,9 @@ func buildForeign(v revVariant, user, owner string, P uint32, rnd *rand.Rand) (f
 		return nil, nil, nil, strRef, stmRef, err
 	}
 	strRef = obj.Ref{Num: uint32(256 + rnd.Intn(70000)), Gen: uint16(rnd.Intn(400))}
+	if at.Num > 5 {
+		strRef = at
+	}
 	stmRef = obj.Ref{Num: 5}
 	strPlain = randString(rnd)
 	body = make([]byte, []int{0, 1, 15, 16, 17, 200}[rnd.Intn(6)])
@@ -166,7 +169,7 @@ func reverseCheck(rnd *rand.Rand, rounds int, tl *tally) {
 		for _, v := range revVariants {
 			pw := pws[rnd.Intn(len(pws))]
 			P := 0xFFFFF0C0 | uint32(rnd.Intn(64))<<2 | uint32(rnd.Intn(2))<<8 | uint32(rnd.Intn(4))<<10
-			file, sPlain, body, sRef, stRef, err := buildForeign(v, pw.user, pw.owner, P, rnd)
+			file, sPlain, body, sRef, stRef, err := buildForeign(v, pw.user, pw.owner, P, rnd, obj.Ref{})
 			if err != nil {
 				tl.note("reverse/"+v.name+"/build", err.Error())
 				continue
